@@ -13,6 +13,7 @@ import (
 type Profile struct {
 	MaxControllers   int
 	MaxMethods       int
+	MinMethods       int
 	CtrlPackages     []string // package dirs controllers may live in
 	Decoys           bool     // non-endpoint methods that look almost like endpoints
 	Hidden           bool
@@ -244,7 +245,7 @@ func GenProject(t *rapid.T, pf Profile) *Project {
 
 		// the files methods may live in: the controller's file, a sibling file, a file without any controller
 		files := []string{c.File, c.File, strings.TrimSuffix(c.File, ".go") + "_more.go", "handlers_" + fmt.Sprint(ci) + ".go"}
-		nm := rapid.IntRange(0, pf.MaxMethods).Draw(t, "nMethods")
+		nm := rapid.IntRange(pf.MinMethods, pf.MaxMethods).Draw(t, "nMethods")
 		for mi := 0; mi < nm; mi++ {
 			m := &Method{Name: fmt.Sprintf("%s%d", rapid.SampledFrom([]string{"Get", "List", "Create", "Update", "Remove", "Do"}).Draw(t, "mname"), opIdx)}
 			opIdx++
@@ -258,9 +259,12 @@ func GenProject(t *rapid.T, pf Profile) *Project {
 			nseg := rapid.IntRange(1, 3).Draw(t, "nseg")
 			var segs []string
 			usedParams := map[string]bool{}
+			base := len(segsOf(c.Prefix()))
 			for s := 0; s < nseg; s++ {
 				if rapid.IntRange(0, 2).Draw(t, "segIsParam") == 0 {
-					pn := rapid.SampledFrom(paramNames).Draw(t, "pname")
+					// the parameter name is a function of the segment's absolute position: routers such as gin
+					// refuse two wildcards with different names at the same position of their tree
+					pn := paramNames[(base+s)%len(paramNames)]
 					if !usedParams[pn] {
 						usedParams[pn] = true
 						segs = append(segs, "{"+pn+"}")
@@ -277,10 +281,21 @@ func GenProject(t *rapid.T, pf Profile) *Project {
 					clash = true
 				}
 			}
-			if clash {
-				route = fmt.Sprintf("/u%d", opIdx)
-				segs = []string{fmt.Sprintf("u%d", opIdx)}
+			for depth := 1; clash && depth <= 6; depth++ {
+				// fall back to a literal route; deepen it until it overlaps nothing (a literal can still
+				// overlap an all-parameter template of the same length)
+				segs = nil
+				for d := 0; d < depth; d++ {
+					segs = append(segs, fmt.Sprintf("u%d", opIdx))
+				}
+				route = "/" + strings.Join(segs, "/")
 				full = NormalisePath(c.Prefix(), route)
+				clash = false
+				for _, k := range taken {
+					if (k.verb == m.Verb && Overlap(k.path, full)) || sameTemplateOtherNames(k.path, full) {
+						clash = true
+					}
+				}
 			}
 			if pf.SlashNoise {
 				switch rapid.IntRange(0, 9).Draw(t, "slashNoise") {
@@ -494,6 +509,9 @@ func genValidator(t *rapid.T, pf Profile, typ TypeRef) string {
 		return rapid.SampledFrom([]string{"email", "uuid", "min=1", "max=10", "len=5", "min=2,max=8", "oneof=a b c", "required", "ipv4", "hostname"}).Draw(t, "sval")
 	case base.Kind == "prim" && base.Name == "bool":
 		return ""
+	case base.Kind == "prim" && strings.HasPrefix(base.Name, "float"):
+		// go-playground's oneof panics on floats ("Bad field type"): not a rule a working service can carry
+		return rapid.SampledFrom([]string{"gt=1", "gte=0", "lt=100", "lte=50", "min=1", "max=9", "gte=1,lte=5", "required"}).Draw(t, "fval")
 	case base.Kind == "prim":
 		return rapid.SampledFrom([]string{"gt=1", "gte=0", "lt=100", "lte=50", "min=1", "max=9", "gte=1,lte=5", "oneof=1 2 3", "required"}).Draw(t, "nval")
 	case base.Kind == "slice":
@@ -645,8 +663,8 @@ var SecurityProfile = Profile{
 
 // RouterProfile: batch projects for the router lab (many routes per project, bodies the harness can synthesise).
 var RouterProfile = Profile{
-	MaxControllers: 4, MaxMethods: 8, CtrlPackages: []string{"api", "api2", "internal/api3"},
+	MaxControllers: 4, MaxMethods: 8, MinMethods: 3, CtrlPackages: []string{"api", "api2", "internal/api3"},
 	Decoys: true, Hidden: true, Security: true, ExtraParams: 4, Types: true, TypePackages: []string{"models", "shared"}, FlatStructs: true,
 	Validators: true, Responses: true, SlashNoise: true, SharedPrefix: true, PtrParams: true, FormParams: true,
-	ContextParams: true, GroupedParams: true, SliceQuery: true, PtrPathParams: false,
+	ContextParams: true, GroupedParams: true, SliceQuery: true, PtrPathParams: false, NoNamedInMaps: true,
 }
